@@ -143,6 +143,21 @@ def adversaries(tier):
     A.append(('tunnel-upload-upstream-not-reading', 'tunnel',
               [('send', con), ('wait_recv', len(ACK)), ('send', bigbody[:30000]), ('send', bigbody[30000:]), ('wait_idle',), ('close',)],
               {('10.0.0.9', 443): stuck}, dns, {}))
+    # a download the client does not read (output piles up in the proxy) ...
+    bigresp = b'HTTP/1.0 200 OK\r\nServer: x\r\n\r\n' + b'D' * 120000
+    bigorigin = {('10.0.0.9', 80): lambda: HttpOrigin([[bigresp]], then={0: 'close'})}
+    # ... until the upstream has finished and closed; then the client reads everything: the connection must end
+    A.append(('fwd-download-client-not-reading-at-first', 'forward',
+              [('send', fwd), ('stop_reading',), ('wait_idle',), ('start_reading',), ('wait_eof',)], bigorigin, dns, {}))
+    # ... and the work is then torn down by an error (a pipelined request with a non-numeric Content-Length) while
+    # the client still does not read: tearing down must not wait for that client
+    A.append(('fwd-download-client-not-reading-then-bad-request', 'forward',
+              [('send', fwd), ('stop_reading',), ('wait_idle',),
+               ('send', b'POST http://adv.test/x HTTP/1.1\r\nHost: adv.test\r\nContent-Length: abc\r\n\r\n'), ('wait_idle',)],
+              {('10.0.0.9', 80): lambda: HttpOrigin([[b'HTTP/1.1 200 OK\r\nContent-Length: 120000\r\n\r\n' + b'D' * 120000]])}, dns, {}))
+    A.append(('tunnel-download-client-not-reading-then-reset', 'tunnel',
+              [('send', con), ('stop_reading',), ('wait_idle',), ('send', b'x'), ('wait_idle',), ('close',)],
+              {('10.0.0.9', 443): lambda: RawOrigin(greeting=[b'T' * 120000])}, dns, {}))
     return A
 
 
